@@ -2,6 +2,7 @@
 
 from __future__ import annotations
 
+import functools
 import warnings
 
 from hypothesis import strategies as st
@@ -45,8 +46,11 @@ def _sched_case(draw):
     # parameters look like afterwards is not specified, so the model re-reads them; LATER steps must again apply exactly one factor each)
     fail_op = st.fixed_dictionaries({'op': st.just('step_raises'), 'k': st.one_of(st.none(), st.integers(0, 12)), 'who': st.integers(0, 5)})
     ops = draw(st.lists(st.one_of(step_op, step_op, step_op, step_op, set_op, fail_op), min_size=1, max_size=12))
+    # what kind of Python callable the callable hyper-parameters / the factor functions are (anything callable is documented to work)
+    ckind = draw(st.sampled_from(['function', 'function', 'partial', 'method', 'object']))
+    lkind = draw(st.sampled_from(['function', 'function', 'partial', 'method', 'object']))
     return {'kind': 'sched', 'init': init, 'scheduled': sorted(scheduled), 'callables': sorted(callables),
-            'tables': tables, 'ops': ops}
+            'tables': tables, 'ops': ops, 'callable_kind': ckind, 'lambda_kind': lkind}
 
 
 @st.composite
@@ -79,7 +83,7 @@ class C19(Prop):
     examples = {'quick': 700, 'thorough': 3000}
     shards = {'quick': 8, 'thorough': 16}
     enum_shards = {'quick': 2, 'thorough': 16}
-    required_labels = {'quick': ['kind=sched', 'kind=exp', 'refused=True', 'nontrivial=True', 'failed_step=True'],
+    required_labels = {'quick': ['kind=sched', 'kind=exp', 'refused=True', 'nontrivial=True', 'failed_step=True', 'callable_kind=partial', 'callable_kind=method', 'callable_kind=object'],
                        'thorough': ['kind=sched', 'kind=exp', 'refused=True', 'nontrivial=True', 'failed_step=True']}
 
     fuzz = {'thorough': {'runs': 20000, 'max_time': 60, 'procs': 4}}
@@ -167,8 +171,24 @@ class C19(Prop):
         init, tables = case['init'], case['tables']
         scheduled, callables = case['scheduled'], case['callables']
 
+        def as_kind(fn, kind):
+            # the same behaviour as a plain function, a functools.partial, a bound method or an object with __call__
+            if kind == 'partial':
+                return functools.partial(lambda _pad, step: fn(step), None)
+            if kind == 'method':
+                class Holder:
+                    def value(self, step):
+                        return fn(step)
+                return Holder().value
+            if kind == 'object':
+                class Obj:
+                    def __call__(self, step):
+                        return fn(step)
+                return Obj()
+            return fn
+
         def const_fn(v):
-            return lambda step: v
+            return as_kind(lambda step: v, case.get('callable_kind', 'function'))
 
         kwargs = {}
         for p in PARAMS:
@@ -189,11 +209,11 @@ class C19(Prop):
                 if failing['who'] == p:
                     raise RuntimeError('factor function failed (injected by the harness)')
                 return t[step % len(t)]
-            return fn
+            return as_kind(fn, case.get('lambda_kind', 'function'))
 
         lambdas = {p + '_lambda': table_fn(p) for p in scheduled}
         must_refuse = sorted(set(scheduled) & set(callables))
-        labels = {'kind': 'sched', 'refused': bool(must_refuse), 'n_sched': len(scheduled)}
+        labels = {'kind': 'sched', 'refused': bool(must_refuse), 'n_sched': len(scheduled), 'callable_kind': case.get('callable_kind', 'function') if callables else '-'}
         try:
             sched = LambdaParamScheduler(pre, **lambdas)
         except ValueError:
